@@ -186,10 +186,11 @@ theorem aggregates_of_nothing (vs : List Value) (h : ∀ v ∈ vs, v = .null) :
     exact hn (h v hv)
   simp [aggregate, this, minVal, maxVal]
 
-/-- SUM is the sum and AVG the quotient sum / count of the non-NULL values (when no overflow is reported) -/
+/-- SUM is the sum and AVG the quotient sum / count (a rational in lowest terms) of the non-NULL values
+    (when no overflow is reported) -/
 theorem sum_avg_def (is : List Int) (hne : is ≠ []) (v : Value) :
     (aggregate .none .sum (is.map .int) = .ok v → v = .int is.sum) ∧
-    (aggregate .none .avg (is.map .int) = .ok v → v = .rat is.sum is.length) := by
+    (aggregate .none .avg (is.map .int) = .ok v → v = ratNorm is.sum is.length) := by
   have hnn : nonNull (is.map .int) = is.map .int := by
     simp only [nonNull, List.filter_eq_self, List.mem_map, bne_iff_ne, ne_eq]
     rintro _ ⟨i, _, rfl⟩; simp
@@ -266,6 +267,82 @@ theorem where_keeps_only_true (tys : List Ty) (w : Expr) (rows out : List Row)
 
 /-- without WHERE all rows are kept -/
 theorem where_absent (tys : List Ty) (rows : List Row) : applyWhere .none tys none rows = .ok rows := rfl
+
+/-! ## Aggregate queries: DISTINCT aggregates, HAVING -/
+
+/-- AGG(DISTINCT expr) sees every distinct non-NULL value exactly once: its input has no duplicates, no NULL, and
+    the same members as the non-NULL argument values; so COUNT(DISTINCT expr) is the number of distinct non-NULL values -/
+theorem distinct_aggregate_input (a : Agg) (hd : a.distinct = true) (hf : a.fn ≠ .countStar) (vs : List Value) :
+    (aggInput a vs).Nodup ∧ (∀ v, v ∈ aggInput a vs ↔ (v ∈ vs ∧ v ≠ .null)) ∧
+    aggregate .none .count (aggInput a vs) = .ok (.int (aggInput a vs).length) := by
+  have hin : aggInput a vs = dedupV (nonNull vs) := by
+    simp only [aggInput, hd, Bool.true_and]
+    have : (a.fn != AggFn.countStar) = true := by simpa using hf
+    simp [this]
+  have hmem : ∀ (l : List Value) (v : Value), v ∈ dedupV l ↔ v ∈ l := by
+    intro l
+    induction l with
+    | nil => simp [dedupV]
+    | cons x xs ih =>
+      intro v
+      simp only [dedupV, List.mem_cons, List.mem_filter, ih, bne_iff_ne, ne_eq]
+      constructor
+      · rintro (h | ⟨h, _⟩)
+        · exact Or.inl h
+        · exact Or.inr h
+      · intro h
+        by_cases hx : v = x
+        · exact Or.inl hx
+        · rcases h with h | h
+          · exact absurd h hx
+          · exact Or.inr ⟨h, hx⟩
+  have hnd : ∀ l : List Value, (dedupV l).Nodup := by
+    intro l
+    induction l with
+    | nil => simp [dedupV]
+    | cons x xs ih =>
+      simp only [dedupV, List.nodup_cons, List.mem_filter, bne_iff_ne, ne_eq, not_and]
+      exact ⟨fun _ h => h trivial, ih.filter _⟩
+  rw [hin]
+  refine ⟨hnd _, fun v => by rw [hmem, nonNull_mem], ?_⟩
+  have hnn : nonNull (dedupV (nonNull vs)) = dedupV (nonNull vs) := by
+    simp only [nonNull, List.filter_eq_self, bne_iff_ne, ne_eq]
+    intro v hv
+    exact ((nonNull_mem vs v).mp ((hmem _ v).mp hv)).2
+  simp [aggregate, hnn]
+
+/-- an aggregate query: group, compute the aggregate row of every group (keys, then aggregates), keep the groups on
+    which HAVING is TRUE — not FALSE, not unknown —, project the select list over the aggregate row -/
+theorem aggregate_query_pipeline (tys : List Ty) (q : Select) (hq : q.isAgg = true) (rows out : List Row)
+    (h : produce .none tys q rows = .ok out) :
+    ∃ keyed arows, keyRows .none tys q.groupBy rows = .ok keyed ∧
+      mapE (aggRow .none tys q.groupBy q.aggs) (groupsOf q.groupBy.isEmpty keyed) = .ok arows ∧
+      projectAll .none (aggTys tys q.groupBy q.aggs) q.items
+        (match q.having with
+         | none => arows
+         | some hv => arows.filter (holds (aggTys tys q.groupBy q.aggs) hv)) = .ok out := by
+  simp only [produce, hq, Bool.not_true, Bool.false_eq_true, if_false] at h
+  cases hk : keyRows {} tys q.groupBy rows with
+  | error e => simp [hk] at h
+  | ok keyed =>
+    simp only [hk] at h
+    cases ha : mapE (aggRow {} tys q.groupBy q.aggs) (groupsOf q.groupBy.isEmpty keyed) with
+    | error e => simp [ha] at h
+    | ok arows =>
+      simp only [ha] at h
+      refine ⟨keyed, arows, rfl, ha, ?_⟩
+      cases hh : q.having with
+      | none => simpa [hh, applyWhere] using h
+      | some hv =>
+        simp only [hh] at h
+        cases hw : applyWhere {} (aggTys tys q.groupBy q.aggs) (some hv) arows with
+        | error e => simp [hw] at h
+        | ok kept =>
+          simp only [hw] at h
+          have hk := where_keeps_only_true _ hv arows kept hw
+          simp only
+          rw [← hk]
+          exact h
 
 /-! ## Joins (on a decided match relation `m`; `evalFrom` decides it by evaluating ON for every pair) -/
 
